@@ -30,6 +30,7 @@ class Fn:
         at_end=None,
         final_guards=0,
         hoist=None,
+        macros=None,
     ):
         self.file = file
         self.path = path if isinstance(path, list) else [p.strip() for p in path.split("::")]
@@ -59,6 +60,8 @@ class Fn:
         # R11: dict(anchor, call, name, sig, spec, subst, final_guards, external_body): a closure invoked
         # on the spot is emitted as a method of its own (with its own contract)
         self.hoist = hoist
+        # R12: [(macro name, file, item path)]: invocations are expanded in place from the real macro_rules!
+        self.macros = macros or []
 
 
 class Type:
@@ -127,6 +130,11 @@ def emit(unit):
         rw = Rewriter(orig, label)
         rw.strip_docs_and_attrs()
         rw.strip_pub()
+        for mname, mfile, mpath in getattr(it, "macros", []) or []:
+            msf = source(mfile)
+            ma, mb = msf.find_item(mpath if isinstance(mpath, list) else [x.strip() for x in mpath.split("::")])
+            if not rw.expand_macro(mname, msf.text[ma:mb]):
+                raise ExtractError("%s: R12: no invocation of %s! found" % (label, mname))
         for s in it.subst:
             old, new = s[0], s[1]
             cnt = s[2] if len(s) > 2 else 1
